@@ -29,7 +29,7 @@ SETS = {"A": [(1, 9), (1, 10)], "B": [(1, 10), (2, 9)], "C": [(2, 10), (1, 9), (
 ALPH_SUBS = ["sub:A", "sub:B", "sub:C", "unsub:A", "unsub:B", "drop", "arm-cut", "ev1", "L2+"]
 ALPH_OFFLINE = ["sub:A", "sub:C", "unsub:A", "offline", "online", "drop", "ev1"]
 ALPH_EVENTS = ["L2+", "L2-", "R+", "ev1", "ev2", "ev-split", "ev-split-stall", "ev-empty", "ev-nonjson", "drop", "sub:A"]
-ALPH_SELF = ["S+", "L2+", "ev1", "ev2", "R+", "drop"]
+ALPH_SELF = ["S+", "A+", "L2+", "ev1", "ev2", "R+", "drop"]
 
 
 class H(explore.Harness):
@@ -42,6 +42,7 @@ class H(explore.Harness):
         self.cut_armed = False
         self.cutoff_happened = False
         self.nev = 0
+        self.optional = {}  # listener name -> deliveries it may or may not see (the event that was being dispatched when it was registered)
         self.logs = {}  # listener name -> list of received events
         self.expected = {}  # listener name -> list of expected (key, value) in order
         self.back_expected = {}
@@ -131,6 +132,17 @@ class H(explore.Harness):
                 cb = _Callable()
             else:
                 cb = raiser
+        elif name.startswith("A"):
+            def cb(ev, log=log, name=name):
+                # a listener that, on its first event, registers ANOTHER listener (an integration that sets an entity up when it first hears of it)
+                log.append(dict(ev))
+                if ev and "N" not in self.unreg and "N" not in self.logs:
+                    self.optional["N"] = [(k, v.get("value")) for k, v in ev.items()]
+                    self._add_listener("N")
+                    # what was sent in the same read BEHIND the event being dispatched is owed to the new listener like any later event
+                    se = getattr(self, "step_events", [])
+                    if self.optional["N"] and self.optional["N"][0] in se:
+                        self.expected["N"] = list(se[se.index(self.optional["N"][0]) + 1:])
         elif name.startswith("S"):
             def cb(ev, log=log, name=name):
                 log.append(dict(ev))
@@ -151,6 +163,8 @@ class H(explore.Harness):
             if a == "R+" and "R" in self.unreg:
                 continue
             if a == "S+" and ("S" in self.unreg or "S" in self.logs):
+                continue
+            if a == "A+" and ("A" in self.unreg or "A" in self.logs):
                 continue
             if a == "drop" and (self.drops >= self.p.get("max_drops", 2) or self._cur() is None):
                 continue
@@ -204,10 +218,14 @@ class H(explore.Harness):
             self._add_listener("R")
         elif k == "S+":
             self._add_listener("S")
+        elif k == "A+":
+            self._add_listener("A")
         elif k in ("ev1", "ev2", "ev-split", "ev-split-stall"):
             msgs = b""
+            self.step_events = []
             for _ in range(2 if k == "ev2" else 1):
                 self.nev += 1
+                self.step_events.append(((1, 9), self.nev))
                 msgs += ipacc.event_message(ipacc.jbody({"characteristics": [{"aid": 1, "iid": 9, "value": self.nev}]}))
                 for name in list(self.unreg):
                     self.expected[name].append(((1, 9), self.nev))
@@ -276,6 +294,9 @@ class H(explore.Harness):
         for name, log in self.logs.items():
             got = [(k, v.get("value")) for ev in log for k, v in ev.items()]
             exp = self.expected[name]
+            opt = self.optional.get(name)
+            if opt and got[: len(opt)] == opt and exp[: len(opt)] != opt:
+                got = got[len(opt):]
             if got != exp[: len(got)] or (len(got) != len(exp)):
                 dup = len(got) != len(set(got))
                 sig = "event-delivered-twice" if dup else ("event-lost-for-listener" if len(got) < len(exp) else "event-order-or-key-wrong")
@@ -448,7 +469,7 @@ def case_coap_subs(p):
     return out
 
 
-COAP_EV = ["ev", "ev2", "ev-novalue", "ev+novalue", "replay", "junk", "raiser"]  # -novalue: an entry that is only its header (the accessory reports a change without a value)
+COAP_EV = ["ev", "ev2", "ev-same-twice", "ev-novalue", "ev+novalue", "replay", "junk", "raiser"]  # -novalue: an entry that is only its header (the accessory reports a change without a value)
 
 
 def case_coap_events(p):
@@ -489,6 +510,15 @@ def case_coap_events(p):
                 expect.append(((1, 10), n))
                 payload = rig.acc.event(items)
                 sent.append(payload)
+            elif sym == "ev-same-twice":
+                # one event PDU with two records for the SAME characteristic (motion detected, then cleared): two events, in that order
+                items = []
+                for _ in range(2):
+                    n += 1
+                    items.append((10, coapacc.pack_value(rig.acc.chars[10].format, n)))
+                    expect.append(((1, 10), n))
+                payload = rig.acc.event(items)
+                sent.append(payload)
             elif sym in ("ev", "ev2"):
                 items = []
                 for _ in range(2 if sym == "ev2" else 1):
@@ -510,6 +540,9 @@ def case_coap_events(p):
                 out.append((f"coap:event-resource-raises:{type(e).__name__}:{sym}", {"history": p["history"], "err": str(e)[:160]}))
                 break
         got = [k for ev in log for k in ev]
+        vals10 = [v.get("value") for ev in log for k, v in ev.items() if k == (1, 10) and isinstance(v.get("value"), int)]
+        if not out and vals10 != sorted(vals10):
+            out.append(("coap:events-of-one-characteristic-out-of-order", {"history": p["history"], "values": vals10}))
         if not out and got != [k for k, _ in expect]:
             dup = len(got) > len(expect)
             out.append((("coap:event-delivered-twice" if dup else "coap:event-lost-for-listener"), {"history": p["history"], "delivered": got, "sent": [k for k, _ in expect]}))
@@ -620,8 +653,7 @@ def run(ctx):
         (dict(alphabet=["sub:A", "sub:C", "unsub:A", "drop", "ev1"], max_drops=2, refuse=[(2, 10)]), 4 if quick else 6),
         (dict(alphabet=["sub:B", "sub:C", "unsub:B", "drop", "offline", "online"], max_drops=2, refuse=[(1, 10)]), 4 if quick else 5),
     ]
-    if not quick:
-        configs.append((dict(alphabet=ALPH_SELF, max_drops=1), 5))
+    configs.append((dict(alphabet=ALPH_SELF, max_drops=1), 4 if quick else 5))
     work = []
     for p, d in configs:
         p = dict(p, seed=ctx.seed)
